@@ -129,8 +129,8 @@ func (e *C10) Run(c *core.Ctx, idx int) {
 		}
 	}
 	// ---- run
-	exifMode := r.Intn(3)  // 0 exact pieces, 1 library DecodeJPEGIfd, 2 exact via ReadFull
-	xmpMode := r.Intn(4)   // 0 nothing, 1 prefix, 2 ReadAll, 3 odd-sized reads to EOF
+	exifMode := r.Intn(3)   // 0 exact pieces, 1 library DecodeJPEGIfd, 2 exact via ReadFull
+	xmpMode := r.Intn(4)    // 0 nothing, 1 prefix, 2 ReadAll, 3 odd-sized reads to EOF
 	readerKind := r.Intn(3) // 0 plain, 1 small bufio, 2 big bufio
 	var got []c10cb
 	ir := exif2.NewIfdReader(exif2.Logger)
